@@ -194,7 +194,7 @@ fn captured(c: &Connection<PSock>) -> (usize, usize, [u8; WCAP]) {
 
 /// Drive the plain method M once (the write happens in the first poll; the reply never comes).
 fn run_plain<const M: usize>(c: &mut Connection<PSock>, g: &Args) {
-    let s = core::str::from_utf8(&g.s).unwrap_or("");
+    let s = crate::nd::str_of(&g.s);
     match M {
         0 => {
             let f = c.ping();
@@ -268,28 +268,37 @@ pub fn proxy_plain<const M: usize>(nd: &mut Nd) {
     core::mem::forget(c);
 }
 
+/// The chain forms are synchronous up to `send()`: the calls are in the connection's write buffer
+/// as soon as the chain value exists. `send()` itself (one flush) is C02/C06's subject, and polling
+/// it would put a nested coroutine into the formula (DESIGN 12), so the chain is dropped unsent and
+/// the enqueued bytes are read from the buffer.
 macro_rules! send_chain {
     ($chain:expr) => {{
         match $chain {
-            Ok(ch) => {
-                let f = ch.send();
-                let mut f = core::pin::pin!(f);
-                match poll_once(f.as_mut()) {
-                    Poll::Ready(Ok(s)) => core::mem::forget(s),
-                    Poll::Ready(Err(e)) => core::mem::forget(e),
-                    Poll::Pending => {}
-                }
-            }
+            Ok(ch) => core::mem::forget(ch),
             Err(e) => core::mem::forget(e),
         }
     }};
+}
+
+fn enqueued(c: &Connection<PSock>) -> (usize, [u8; WCAP]) {
+    let (buf, pos) = c.write().verif_parts();
+    let mut data = [0u8; WCAP];
+    let mut i = 0;
+    while i < WCAP {
+        if i < pos && i < buf.len() {
+            data[i] = buf[i];
+        }
+        i += 1;
+    }
+    (pos, data)
 }
 
 /// `chain_<m>(args).send()` writes the same frame as the plain method (M ≠ oneway method, for
 /// which no chain form is generated).
 pub fn proxy_chain<const M: usize>(nd: &mut Nd) {
     let g = any_args(nd);
-    let s = core::str::from_utf8(&g.s).unwrap_or("");
+    let s = crate::nd::str_of(&g.s);
     let mut c = conn();
     match M {
         0 => send_chain!(c.chain_ping::<Out, PErr>()),
@@ -301,9 +310,8 @@ pub fn proxy_chain<const M: usize>(nd: &mut Nd) {
         6 => send_chain!(c.chain_watch::<Out, PErr>(g.a)),
         _ => send_chain!(c.chain_get_2fa_code::<Out, PErr>()),
     }
-    let (writes, len, data) = captured(&c);
+    let (len, data) = enqueued(&c);
     let e = expected::<M>(&g);
-    assert!(writes == 1, "C12.one_chain_one_write");
     let same = len == e.n && {
         let mut ok = true;
         let mut i = 0;
@@ -328,7 +336,7 @@ pub fn proxy_chain<const M: usize>(nd: &mut Nd) {
 /// method's frame.
 pub fn proxy_ext<const M: usize>(nd: &mut Nd) {
     let g = any_args(nd);
-    let s = core::str::from_utf8(&g.s).unwrap_or("");
+    let s = crate::nd::str_of(&g.s);
     let mut c = conn();
     {
         let first = match c.chain_ping::<Out, PErr>() {
@@ -349,10 +357,9 @@ pub fn proxy_ext<const M: usize>(nd: &mut Nd) {
             _ => send_chain!(first.get_2fa_code()),
         }
     }
-    let (writes, len, data) = captured(&c);
+    let (len, data) = enqueued(&c);
     let p = expected::<0>(&g);
     let e = expected::<M>(&g);
-    assert!(writes == 1, "C12.one_chain_one_write");
     let same = len == p.n + e.n && {
         let mut ok = true;
         let mut i = 0;
